@@ -15,7 +15,9 @@ for line in open(os.path.join(ROOT, "seeded", "RESULTS.jsonl")):
     if prev is None or r["mode"] == "repo-apply" or prev["mode"] != "repo-apply":
         rows[key] = r
 def own(patch, check):
-    return os.path.basename(os.path.dirname(patch) if patch.startswith("seeded/") else patch).startswith(check)
+    name = os.path.basename(os.path.dirname(patch) if patch.startswith("seeded/") else patch)
+    # C15S = the Stronghold companion of C15 (part of C15's thorough command)
+    return name.startswith(check) or (check == "C15S" and name.startswith("C15"))
 def clean(k):
     k = re.sub(r"panic@/tmp/mutwt/", "panic@", k)
     return k
